@@ -2,7 +2,8 @@
 From V Require Import Common.Base JpegLS.JlsParams JpegLS.JlsGolomb JpegLS.JlsRun JpegLS.JlsModel JpegLS.JlsT87Dec.
 From V Require Import JpegLS.JlsProofsParams JpegLS.JlsProofsGolomb JpegLS.JlsProofsSample JpegLS.JlsProofsNear0
                       JpegLS.JlsProofsRun JpegLS.JlsProofsInterrupt
-                      JpegLS.JlsProofsLine JpegLS.JlsProofsStream JpegLS.JlsProofsT87 JpegLS.JlsProofsTotal.
+                      JpegLS.JlsProofsLine JpegLS.JlsProofsStream JpegLS.JlsProofsT87 JpegLS.JlsProofsTotal
+                      JpegLS.JlsProofsT87Line JpegLS.JlsProofsT87Stream.
 
 (* the coded parameter function equals the standard's formulas (A.2.1, C.2.4.1.1) on the whole
    domain 2 <= P <= 16, 0 <= NEAR <= min(255, MAXVAL/2) *)
@@ -55,8 +56,9 @@ Proof. exact cross_decode_lossless_of_near0. Qed.
 Print Assumptions C14_cross_lossless_decodes_near0.
 
 (* the independent T.87 decoder: building blocks equal to the library model's, and agreement on
-   whole streams decided by computation on finite domains (t87_agrees_statement is the full
-   claim; the extracted decoder is run against Go on every generated stream by the harness) *)
+   whole streams decided by computation on finite domains (the general theorem is
+   C14_t87_decoder_agrees below; the extracted decoder is also run against Go on every
+   generated stream by the harness) *)
 Theorem C14_T87dec_reconstruct : forall P near px sign e,
   2 <= P <= 16 -> 0 <= near <= near_max P ->
   sign = 1 \/ sign = -1 -> 0 <= px <= 2 ^ P - 1 ->
@@ -146,6 +148,46 @@ Theorem C14_T87dec_interruption : forall P near st c e ra rb rest,
 Proof. exact t87_interruption_roundtrip. Qed.
 Print Assumptions C14_T87dec_interruption.
 
+(* the independent T.87 decoder on WHOLE encoder streams: for every stream the near-lossless
+   encoder model emits — one component, or three components sample-interleaved (ILV 2, the only
+   multi-component mode the library writes); any P in 2..16; any NEAR in 0..min(255, MAXVAL/2);
+   any samples below 2^P; any dimensions up to 65535 — the decoder written from the standard
+   (JlsT87Dec.t87_decode) and the library decoder model return the same container bytes,
+   geometry, precision and NEAR. Proof: line lockstep over the symbol-level round trips below
+   (regular, run length, run interruption) with the state-equality invariant (365 contexts with
+   bounds 1 <= N <= 64, 0 <= A <= N*2^16, -N < B <= 0; two run contexts; RUNindex), equality of
+   the causal templates (JlsProofsT87Line, JlsProofsT87Line3), then marker segments, bit
+   unstuffing and the output container (JlsProofsT87Stream). *)
+Theorem C14_t87_decoder_agrees : forall w h comps P near pixelData stream lim,
+  w * h * comps <= lim -> near <= near_max P ->
+  zlen (pixelsToIntegers P pixelData) = w * h * comps ->
+  Forall (in_range P) (pixelsToIntegers P pixelData) ->
+  jlsn_encode w h comps P near pixelData = Ok stream ->
+  exists recon,
+    jlsn_decode lim stream = Ok (mkDecoded (integersToPixels P (2 ^ P - 1) recon) w h comps P near) /\
+    t87_decode lim stream = Ok (mkT87Img (integersToPixels P (2 ^ P - 1) recon) w h comps P near).
+Proof. exact t87_decoder_agrees. Qed.
+Print Assumptions C14_t87_decoder_agrees.
+
+(* the lossless encoder's streams: the lossless decoder model and the T.87 decoder both return
+   the source *)
+Theorem C14_t87_decoder_agrees_lossless : forall w h comps P pixelData stream lim,
+  w * h * comps <= lim ->
+  zlen (pixelsToIntegers P pixelData) = w * h * comps ->
+  Forall (in_range P) (pixelsToIntegers P pixelData) ->
+  jls_encode w h comps P pixelData = Ok stream ->
+  jls_decode lim stream =
+    Ok (mkDecoded (integersToPixels P (2 ^ P - 1) (pixelsToIntegers P pixelData)) w h comps P 0) /\
+  t87_decode lim stream =
+    Ok (mkT87Img (integersToPixels P (2 ^ P - 1) (pixelsToIntegers P pixelData)) w h comps P 0).
+Proof. exact t87_decoder_agrees_lossless. Qed.
+Print Assumptions C14_t87_decoder_agrees_lossless.
+
+(* the same as a relation between the two outcomes (JlsProofsT87.t87_agrees_statement) *)
+Theorem C14_t87_agrees : t87_agrees_statement.
+Proof. exact t87_agrees. Qed.
+Print Assumptions C14_t87_agrees.
+
 (* non-vacuity *)
 Example C14_nonvacuous_params : 2 <= 8 <= 16 /\ 0 <= 34 <= near_max 8 /\ jp_t3 (jls_params 8 34) = 177.
 Proof. repeat split; try lia; vm_compute; try reflexivity; discriminate. Qed.
@@ -160,3 +202,20 @@ Qed.
 
 Example C14_nonvacuous_context : t87_context (-1) 2 0 = (-1, 63).
 Proof. reflexivity. Qed.
+
+Example C14_nonvacuous_t87_agrees :
+  exists stream,
+    jlsn_encode 2 2 3 8 2 [10; 200; 30; 12; 199; 33; 90; 91; 92; 10; 200; 30] = Ok stream /\
+    2 * 2 * 3 <= 1000 /\ 2 <= near_max 8 /\
+    zlen (pixelsToIntegers 8 [10; 200; 30; 12; 199; 33; 90; 91; 92; 10; 200; 30]) = 2 * 2 * 3 /\
+    Forall (in_range 8) (pixelsToIntegers 8 [10; 200; 30; 12; 199; 33; 90; 91; 92; 10; 200; 30]) /\
+    match t87_decode 1000 stream, jlsn_decode 1000 stream with
+    | Ok a, Ok b => ti_pixels a = dc_pixels b /\ ti_comps a = 3 /\ ti_near a = 2
+    | _, _ => False
+    end.
+Proof.
+  eexists. split; [vm_compute; reflexivity|].
+  split; [lia|]. split; [vm_compute; discriminate|]. split; [vm_compute; reflexivity|].
+  split; [apply in_range_forallb; vm_compute; reflexivity|].
+  vm_compute. split; [reflexivity|]. split; reflexivity.
+Qed.
